@@ -1102,7 +1102,24 @@ impl<'a> R<'a> {
                         None => self.out.push_str("xmlns"),
                     }
                     self.eq();
-                    self.quoted_plain(u);
+                    // the namespace name is an attribute value like any other: some of its characters may be written
+                    // as references (never the first one, so that a literal piece is followed by a reference)
+                    if u.len() >= 2 && !u.contains('"') && !u.contains('\'') && self.c.chance(1, 6) {
+                        self.label("r:charref-in-namespace-name");
+                        let q = if self.c.chance(1, 2) { '\'' } else { '"' };
+                        self.out.push(q);
+                        let at = 1 + self.c.pick(u.chars().count() - 1);
+                        for (i, ch) in u.chars().enumerate() {
+                            if i == at {
+                                self.charref(ch);
+                            } else {
+                                self.out.push(ch);
+                            }
+                        }
+                        self.out.push(q);
+                    } else {
+                        self.quoted_plain(u);
+                    }
                 }
                 Item::At(a) => {
                     self.out.push_str(&a.name.text());
